@@ -11,7 +11,7 @@ import numpy as np
 
 from simkit import simio
 from simkit.engine import Refuse, Violation
-from simkit.worldbase import BUFS, CHUNKS, WorldBase
+from simkit.worldbase import BUFS, CHUNKS, LINE_FAULTS, WorldBase
 from worlds.c05 import expected_read, parse_frames
 
 PREFIXES = ("dump", "voro_a", "voro_b", "run.v2", "sub/vor", "neighbor_run2", "neighbors.d/glass.T0.45")
@@ -309,13 +309,13 @@ class World(WorldBase):
             sw["nops"] = min(sw["nops"], 6)
             sw["w_volmat"] = 0
         if batch == "fault":
-            sw["faults"] = rng.sample(["interrupt", "oserror_write", "short_write", "short_read", "oserror_read", "interrupt_line"], rng.randint(1, 4))
+            sw["faults"] = rng.sample(["interrupt", "oserror_write", "short_write", "short_read", "oserror_read", "interrupt_line", "alloc_line"], rng.randint(1, 4))
             sw["hold_max"] = rng.choice([0, 1, 3])
             sw["p_fault"] = rng.choice([0.2, 0.4])
             sw["chunk"] = rng.choice(CHUNKS[:4])
             sw["buf"] = rng.choice(BUFS[:4])
             sw["w_volmat"] = rng.choice([0, 1])
-            if "interrupt_line" in sw["faults"]:
+            if "interrupt_line" in sw["faults"] or "alloc_line" in sw["faults"]:
                 sw["w_volmat"] = rng.choice([1, 2, 3])
         return sw
 
@@ -371,10 +371,12 @@ class World(WorldBase):
             op = {"op": "read_frame", "h": h, "nmax": rng.choice([1, 2, 3, maxcn - 1, maxcn, maxcn + 1, 200, None])}
             if op["nmax"] is not None and op["nmax"] < 1:
                 op["nmax"] = 1
-            fk = [k for k in sw["faults"] if k in ("short_read", "oserror_read", "interrupt")]
+            fk = [k for k in sw["faults"] if k in ("short_read", "oserror_read", "interrupt") + LINE_FAULTS]
             cfg = self.configs[self.outs[d["prefix"]]["cfg"]]
             if fk and rng.random() < sw.get("p_fault", 0):
                 op["fault"] = {"kind": rng.choice(fk), "at": rng.randint(1, cfg.N + 1)}
+                if op["fault"]["kind"] in LINE_FAULTS:
+                    op["fault"]["at"] = rng.randint(1, 7 * cfg.Ns[d["cursor"]] + 12)
             else:
                 self.gen_env(rng, op)
                 others = [x for x in readable if x != h]
@@ -402,12 +404,13 @@ class World(WorldBase):
             op = {"op": "volume_matrix", "cfg": c, "nconfig": rng.randrange(cfg.T),
                   "deltar": rng.choice([0.01, 0.002, 0.05]), "transform": rng.random() < 0.3,
                   "save": save, "default_ndim": bool(cfg.ndim == 2 and rng.random() < 0.3)}
-            if "interrupt_line" in sw["faults"] and rng.random() < 0.6:
+            lk = [k for k in sw["faults"] if k in LINE_FAULTS]
+            if lk and rng.random() < 0.6:
                 # the analyst cancels the (slow) finite-difference loop at an arbitrary instant and
                 # carries on with the same trajectory object
                 nln = self.dry_lines(lambda: self.invoke_volmat(op, self.configs[c].snapshots()))
                 if nln > 0:
-                    op["fault"] = {"kind": "interrupt_line", "at": rng.randint(1, nln)}
+                    op["fault"] = {"kind": rng.choice(lk), "at": rng.randint(1, nln)}
                     self.ctx.probe("dry_runs_lines")
             return op
         raise AssertionError(kind)
@@ -440,10 +443,18 @@ class World(WorldBase):
     def gen_produce(self, rng, prefix=None):
         sw = self.swarm
         op = {"op": "produce", "cfg": rng.choice(sorted(self.configs)), "prefix": prefix or rng.choice(sw["prefixes"])}
-        fk = [k for k in sw["faults"] if k in ("interrupt", "oserror_write", "short_write")]
+        fk = [k for k in sw["faults"] if k in ("interrupt", "oserror_write", "short_write") + LINE_FAULTS]
         if fk and rng.random() < sw.get("p_fault", 0) * 1.5:
-            nev = self.dry_events(lambda: self.invoke(op))
-            op["fault"] = {"kind": rng.choice(fk), "at": self.pick_fault_event(rng, nev), "hold": rng.randint(0, sw["hold_max"])}
+            fkind = rng.choice(fk)
+            if fkind in LINE_FAULTS and sw.get("huge"):
+                fkind = "interrupt"
+            if fkind in LINE_FAULTS:
+                nln = self.dry_lines(lambda: self.invoke(op))
+                op["fault"] = {"kind": fkind, "at": rng.randint(1, max(1, nln)), "hold": rng.randint(0, sw["hold_max"])}
+                self.ctx.probe("dry_runs_lines")
+            else:
+                nev = self.dry_events(lambda: self.invoke(op))
+                op["fault"] = {"kind": fkind, "at": self.pick_fault_event(rng, nev), "hold": rng.randint(0, sw["hold_max"])}
         else:
             self.gen_env(rng, op)
             readable = sorted(h for h, d in self.handles.items() if not d["stale"] and d["prefix"] != op["prefix"]
@@ -556,7 +567,7 @@ class World(WorldBase):
         self.raise_nested()
         self.check_session_snaps(op["cfg"])
         if exc is not None:
-            if fired and fired[0] in ("interrupt", "oserror_write"):
+            if fired and fired[0] in ("interrupt", "oserror_write") + LINE_FAULTS:
                 hold = fault.get("hold", 0)
                 if hold > 0:
                     self.hold_last(hold, prefix)
@@ -668,7 +679,7 @@ class World(WorldBase):
         tag = f"read_frame:{d['which']}"
         if exc is not None:
             self.drop_last()
-            if fired and fired[0] in ("oserror_read", "interrupt"):
+            if fired and fired[0] in ("oserror_read", "interrupt") + LINE_FAULTS:
                 d["stale"] = True
                 self.ctx.probe("reader_failed_by_fault")
                 return f"{op['h']} failed {exc[0]}"
@@ -754,7 +765,7 @@ class World(WorldBase):
         res, exc, (_nev, _dig, fired) = self.call(lambda: VolumeMatrix(snaps, **kw), op.get("fault"))
         self.check_session_snaps(op["cfg"])
         tag = "volume_matrix"
-        if exc is not None and fired and fired[0] == "interrupt_line":
+        if exc is not None and fired and fired[0] in LINE_FAULTS:
             self.drop_last()
             self.ctx.probe("volmat_cancelled")
             return f"{op['cfg']} cancelled at line {fired[2]}"
